@@ -91,7 +91,7 @@ def model(policy, ts, interval, tmax, next_time, ops):
 def case(draw, unit_variation=False):
     spec = draw(gen.system_spec(variety="mild", max_species=2, max_reactions=2, max_order=2, max_cells=6, max_axis=3,
                                 chemostats="none", state="explicit", count_exp=(0, 2), rate_exp=(-1, 0)))
-    engine = draw(st.sampled_from(["euler", "euler", "tauleap", "gillespie"]))
+    engine = draw(st.sampled_from(["euler", "euler", "tauleap", "gillespie", "gillespie"]))
     policy = draw(st.sampled_from(["on_t_sample", "on_t_sample", "on_iteration", "on_interval", "no_sampling"]))
     nsteps = draw(st.integers(1, 40))
     # a time step that keeps Euler / tau-leap tame: at most ~2 % relative change per step
@@ -104,7 +104,11 @@ def case(draw, unit_variation=False):
             r_ = max(abs(xv), 1.0) / s_
             best = r_ if best is None else min(best, r_)
     base = 10.0 ** math.floor(math.log10((best if best else 1.0) * 0.02))
-    dt = draw(st.integers(100, 999)) / 1000.0 * base
+    units = draw(gen.us_mild)
+    tscale = float(si.TIME[units["time"]])
+    # all time quantities of the script are bare numbers in the script's time unit: 'dt' below is that number,
+    # chosen so that the physical step (dt x unit) is the tame one computed above in seconds
+    dt = draw(st.integers(100, 999)) / 1000.0 * base / tscale
     # requested times in units of dt (fractions), built from structured pieces
     pieces = []
     n_req = draw(st.integers(1, 8))
@@ -134,6 +138,18 @@ def case(draw, unit_variation=False):
     else:
         tmax_steps = draw(st.integers(0, nsteps * 8)) / 8.0 + 0.0625
     interval_steps = draw(st.sampled_from([0.5, 1.0, 1.5, 2.0, 3.3, 7.25, 0.1]))
+    if engine == "gillespie" and draw(st.booleans()):
+        # make the interval comparable to the mean waiting time 1/a0 (reference propensities in the initial
+        # state): some events then jump over several multiples and are followed by events that cross none
+        a0 = 0.0
+        for ch in m_.channels:
+            for i in range(m_.n):
+                a0 += m_.propensity(ch, i, [round(v) for v in x_])
+        for (i, j, _, _), krow in zip(m_.slots, m_.kslot):
+            for s_i in range(m_.ns):
+                a0 += krow[s_i] * round(x_[s_i * m_.n + i])
+        if a0 > 0:
+            interval_steps = draw(st.sampled_from([0.3, 1.0, 3.0])) / (a0 * dt * tscale)
     if unit_variation:
         interval_steps = [3.37, 0.37, 1.73][draw(st.integers(0, 2))]
     n_ops = draw(st.integers(1, nsteps + 6))
@@ -142,7 +158,7 @@ def case(draw, unit_variation=False):
         ops.append("s" if draw(st.integers(0, 5)) == 0 else "i")
     return {"sys": spec, "engine": engine, "policy": policy, "dt": dt, "req_steps": pieces, "tmax_steps": tmax_steps,
             "interval_steps": interval_steps, "ops": "".join(ops), "seed": draw(st.integers(0, 2 ** 32 - 1)),
-            "units": draw(gen.us_mild), "tunit": draw(st.sampled_from(["h", "min", "s", "ms", "µs"])),
+            "units": units, "tunit": draw(st.sampled_from(["h", "min", "s", "ms", "µs"])),
             "route": draw(st.sampled_from(["ctor", "dict"])), "tsform": draw(st.sampled_from(["list", "nparray", "unitarray"]))}
 
 
